@@ -45,11 +45,13 @@ def split_by_property(tot, prop):
     return other
 
 
-def hist_check(prop, tier, configs, depth, rule, assumptions, level="model_checking", long_cfgs=None, long_writes=(), maxday=2, extra_parts=None):
+def hist_check(prop, tier, configs, depth, rule, assumptions, level="model_checking", long_cfgs=None, long_writes=(), maxday=2, deep=None):
     """shared driver of C05 C06 C07 C09: exhaustive history enumeration (+ optional straight-line crossings)."""
     t = vlib.Timer()
     exe = build()
     args = shard_args("hist", configs, vlib.NCPU, ["--depth", depth, "--maxday", maxday])
+    if deep:
+        args += shard_args("hist", deep[0], vlib.NCPU, ["--depth", deep[1], "--maxday", 1, "--reduced", 1])
     for w in long_writes:
         for c in (long_cfgs or []):
             args.append(["--mode", "long", "--configs", c, "--writes", w])
@@ -58,7 +60,8 @@ def hist_check(prop, tier, configs, depth, rule, assumptions, level="model_check
     good = [p for p in parts if p not in fails]
     tot = seqxrun.merge(good)
     tot["bound"] = "histories <= %d ops over {W x up to 8 record kinds, D1..D%d, R} on %d configurations" % (depth, maxday, len(configs)) + \
-                   ("; %s consecutive rotating writes x 3 variants on %d configurations" % ("/".join(map(str, long_writes)), len(long_cfgs or [])) if long_writes else "")
+                   ("; %s consecutive rotating writes x 3 variants on %d configurations" % ("/".join(map(str, long_writes)), len(long_cfgs or [])) if long_writes else "") + \
+                   ("; histories <= %d ops over the reduced alphabet {W1, W(L), D1, R} on %d configurations" % (deep[1], len(deep[0])) if deep else "")
     other = split_by_property(tot, prop)
     tot["distinct_outcomes"] = tot["states"]
     return seqxrun.finish(prop, tier, level, tot, t, rule, assumptions, fails,
